@@ -361,53 +361,58 @@ func afterMutation(c *engine.Ctx) {
 // wide: 40 nodes (size class); one, two or forty of them match the probe.
 func wide(c *engine.Ctx) {
 	c.Group("wide-list")
-	c.Bound("wide-list", "lists of 40 nodes in which k in {0,1,2,17,33,40} nodes hash-match the probe and m in {0,1,2} of those share its purl, matching nodes first / last / interleaved")
-	for _, k := range []int{0, 1, 2, 17, 33, 40} {
-		for m := 0; m <= 2 && m <= k; m++ {
-			for layout := 0; layout < 3; layout++ {
-				k, m, layout := k, m, layout
-				c.Case(func() any { return map[string]int{"hash-matching": k, "of-those-with-probe-purl": m, "layout": layout} }, func(t *engine.T) *engine.Violation {
-					nodes := make([]*sbom.Node, 40)
-					for i := range nodes {
-						v := variant{H: [2]int{3, 0}, Purl: 2}
-						pos := i
-						if layout == 1 {
-							pos = 39 - i
-						} else if layout == 2 {
-							pos = (i * 7) % 40
-						}
-						if pos < k {
-							v = variant{H: [2]int{2, 0}, Purl: 2}
-							if pos < m {
-								v.Purl = 1
+	sizes := []int{40, 301, 1027, 2051}
+	c.Bound("wide-list", fmt.Sprintf("lists of %v nodes in which k in {0,1,2,17,33,n} nodes hash-match the probe and m in {0,1,2} of those share its purl, matching nodes first / last / interleaved", sizes))
+	for _, size := range sizes {
+		for _, k := range []int{0, 1, 2, 17, 33, size} {
+			for m := 0; m <= 2 && m <= k; m++ {
+				for layout := 0; layout < 3; layout++ {
+					k, m, layout, size := k, m, layout, size
+					c.Case(func() any {
+						return map[string]int{"nodes": size, "hash-matching": k, "of-those-with-probe-purl": m, "layout": layout}
+					}, func(t *engine.T) *engine.Violation {
+						nodes := make([]*sbom.Node, size)
+						for i := range nodes {
+							v := variant{H: [2]int{3, 0}, Purl: 2}
+							pos := i
+							if layout == 1 {
+								pos = size - 1 - i
+							} else if layout == 2 {
+								pos = (i * 7) % size
 							}
+							if pos < k {
+								v = variant{H: [2]int{2, 0}, Purl: 2}
+								if pos < m {
+									v.Purl = 1
+								}
+							}
+							nodes[i] = v.build(fmt.Sprintf("w%04d", i))
 						}
-						nodes[i] = v.build(fmt.Sprintf("w%02d", i))
-					}
-					nl := &sbom.NodeList{Nodes: nodes}
-					probe := variant{H: [2]int{2, 0}, Purl: 1}.build("probe")
-					got, err := nl.GetMatchingNode(probe)
-					want := refMatch(nl.Nodes, probe)
-					t.Transitions(1)
-					t.Validated(1)
-					obs, w := "nil", "nil"
-					if err != nil {
-						obs = "ambiguous"
-					} else if got != nil {
-						obs = got.Id
-					}
-					if want.err {
-						w = "ambiguous"
-					} else if want.id != "" {
-						w = want.id
-					}
-					if obs != w {
-						return engine.Violate("match-rule", "wide", "40-node list: GetMatchingNode gives %s, documented rule gives %s", obs, w)
-					}
-					t.State(fmt.Sprintf("wide|%d|%d|%d", k, m, layout))
-					t.Outcome("wide-ok")
-					return nil
-				})
+						nl := &sbom.NodeList{Nodes: nodes}
+						probe := variant{H: [2]int{2, 0}, Purl: 1}.build("probe")
+						got, err := nl.GetMatchingNode(probe)
+						want := refMatch(nl.Nodes, probe)
+						t.Transitions(1)
+						t.Validated(1)
+						obs, w := "nil", "nil"
+						if err != nil {
+							obs = "ambiguous"
+						} else if got != nil {
+							obs = got.Id
+						}
+						if want.err {
+							w = "ambiguous"
+						} else if want.id != "" {
+							w = want.id
+						}
+						if obs != w {
+							return engine.Violate("match-rule", "wide", "%d-node list: GetMatchingNode gives %s, documented rule gives %s", size, obs, w)
+						}
+						t.State(fmt.Sprintf("wide|%d|%d|%d|%d", size, k, m, layout))
+						t.Outcome("wide-ok")
+						return nil
+					})
+				}
 			}
 		}
 	}
